@@ -492,6 +492,56 @@ func (g *genState) scanMutateScan(r *hx.RNG, ops []Op) []Op {
 	return ops
 }
 
+// motif: ONE batch that interleaves several range deletes with point writes of keys inside them (put k,
+// delrange covering k, put k again, a second delrange covering k or not, delete k, ...), reading k through the
+// indexed batch (Get / Has / iterator) after every write and from the database after Write: the order of
+// EVERY pair of (point write, range delete) on one key matters, not only of the last two
+func (g *genState) batchRangeInterleave(r *hx.RNG, ops []Op) []Op {
+	ix := r.Chance(85)
+	g.batches = append(g.batches, false) // closed at the end of the motif
+	g.indexed = append(g.indexed, ix)
+	h := len(g.batches) - 1
+	ops = append(ops, Op{K: "newbatch", Flag: ix})
+	ks := []string{genKey(r, 2), genKey(r, 3)}
+	if len(g.putKeys) > 0 {
+		ks = append(ks, g.putKeys[r.Intn(len(g.putKeys))])
+	}
+	ks = append(ks, extendKey(ks[0]))
+	for n := 3 + r.Intn(5); n > 0; n-- {
+		k := ks[r.Intn(len(ks))]
+		var w string
+		switch r.Intn(6) {
+		case 0, 1:
+			w = "put " + k + " " + genKey(r, 2)
+		case 2:
+			w = "del " + k
+		case 3:
+			w = "delrange " + k + " " + extendKey(k) // covers k
+		case 4:
+			w = "delrange - ffffffff" // covers everything
+		default:
+			w = "delrange " + genKey(r, 2) + " " + genKey(r, 3) // may or may not cover
+		}
+		ops = append(ops, Op{K: "bw", H: h, W: w})
+		if ix {
+			q := ks[r.Intn(len(ks))]
+			ops = append(ops, Op{K: "bget", H: h, A: k}, Op{K: "bhas", H: h, A: q})
+			if r.Chance(30) {
+				g.iters = append(g.iters, true)
+				g.iterSrc = append(g.iterSrc, "b"+strconv.Itoa(h))
+				it := len(g.iters) - 1
+				ops = append(ops, Op{K: "newiter", Src: "b", H: h, A: "-", Flag: false}, Op{K: "seek", H: it, A: k}, Op{K: "next", H: it})
+				ops = g.closeItersOf("b"+strconv.Itoa(h), ops)
+			}
+		}
+	}
+	ops = append(ops, Op{K: "bsize", H: h}, Op{K: "bwrite", H: h})
+	for _, k := range ks {
+		ops = append(ops, Op{K: "get", A: k})
+	}
+	return append(ops, Op{K: "bclose", H: h})
+}
+
 // closeItersOf emits iclose for every open iterator created on the given source
 func (g *genState) closeItersOf(src string, ops []Op) []Op {
 	for i, open := range g.iters {
@@ -523,6 +573,10 @@ func genCase(r *hx.RNG, n int, strictBias int) []Op {
 	for len(ops) < n {
 		if r.Chance(3) {
 			ops = g.scanMutateScan(r, ops)
+			continue
+		}
+		if r.Chance(3) {
+			ops = g.batchRangeInterleave(r, ops)
 			continue
 		}
 		x := r.Intn(100)
